@@ -329,3 +329,7 @@ func TestVerifC13RegressionsNull(t *testing.T) {
 func TestVerifC14Composite(t *testing.T) {
 	vs.Run(t, "C14", func(c *vs.Case) error { return vw.PropC14(c, compositeFactory, "composite") })
 }
+
+func TestVerifC15Composite(t *testing.T) {
+	vs.Run(t, "C15", func(c *vs.Case) error { return vw.PropC15(c, compositeFactory, "composite") })
+}
